@@ -10,6 +10,7 @@ L3  histories on accepted programs of the e2e stage: re-run (new process = new h
     regenerate, cold doc cache, cache pre-filled by another project, `--check` after a run, after a
     one-byte edit and after deleting the diagnostics file; bytes (sha256) and mtimes compared.
 """
+import json
 import os
 import shutil
 
@@ -25,6 +26,12 @@ def run(R):
         "toolchain shim: installed nightly (rustdoc JSON format 57) instead of pavexc's pinned nightly",
     ]
     lean_ok, lrep = pxvlib.lean_obligations(R, ["Pxv.Thm.C10"])
+    # source shape: iteration sites over hash containers must all be in the reviewed inventory
+    import srcshape_hash
+    inv = set(json.load(open(os.path.join(pxvlib.VERIF, "tools", "hash_sites.json")))["sites"])
+    cur = srcshape_hash.current_sites(pxvlib.REPO)
+    new_sites = [srcshape_hash.key(x) for x in cur if srcshape_hash.key(x) not in inv]
+    R.coverage["hash_iteration_sites"] = {"in_tree": len(cur), "inventory": len(inv), "not_in_inventory": new_sites[:10]}
     obs, info = e2e_stage.get_stage(R)
     R.coverage["e2e_stage"] = info
     accepted = [o for o in obs.values() if o["rc"] == 0 and o["klass"] != "corpus"]
@@ -130,6 +137,10 @@ def run(R):
                           "delete diagnostics+--check+update, cold cache, foreign cache); non-trivial = history steps after a modification of the on-disk state; distinct by (program, step)")
     R.coverage["samples"] = hist[:3]
     R.log("programs=%d pavexc runs=%d violations=%d" % (len(hist), runs, n_viol))
+    if new_sites and n_viol == 0:
+        R.violation("source shape: %d iteration site(s) over a hash container are not in the inventory tools/hash_sites.json (the process's hash seed "
+                    "may now reach the generated bytes); the run histories of this run found no differing output: %s" % (len(new_sites), new_sites[:3]),
+                    {"new_sites": new_sites, "inventory": "tools/hash_sites.json", "histories_run": hist}, no_failing_input=True)
     if not lean_ok and n_viol == 0:
         R.violation("proof obligations of Pxv.Thm.C10 no longer check: %s" % (lrep.get("errors") or lrep.get("bad_axioms") or lrep.get("forbidden_tokens")),
                     {"theorem_module": "Pxv.Thm.C10"}, no_failing_input=True)
